@@ -270,6 +270,8 @@ def _kind_handled(prog, walker, kind, registered, disp=None):
 
 
 def check(prog, rep):
+    from . import pitfalls as _pit
+    rep.section(_pit.report, prog, rep, 'R02.P', ['src/optyx/core/autodiff.py'], ('P1',))
     al.selfcheck()
     ref, U, DU = reference_terms()
     uops = unary_ops(prog)
